@@ -596,19 +596,32 @@ pub fn explore(rep: &mut Report, cfg: &Cfg, u: &Universe, max_levels: usize) {
 
 pub fn run_c03(mut rep: Report) -> i32 {
     let thorough = rep.thorough();
-    let spec = if thorough {
-        Spec { chains: vec![(0, 0, 5, vec![2, 4]), (0, 1, 3, vec![]), (1, 0, 4, vec![1]), (1, 1, 3, vec![0, 1])], forge_for: vec![0, 2] }
+    // Logs are independent of each other in ingest (every decision reads one (author, log)), so the
+    // thorough tier explores several two/three-chain universes instead of one large product.
+    let specs: Vec<(&str, Spec)> = if thorough {
+        vec![
+            ("A-two-prune-points", Spec { chains: vec![(0, 0, 5, vec![2, 4]), (0, 1, 3, vec![])], forge_for: vec![0] }),
+            ("B-prune-at-start", Spec { chains: vec![(1, 0, 4, vec![1]), (1, 1, 3, vec![0, 1])], forge_for: vec![0, 1] }),
+            ("two-authors-same-log-id", Spec { chains: vec![(0, 0, 4, vec![2]), (1, 0, 3, vec![1]), (0, 1, 2, vec![])], forge_for: vec![0, 1] }),
+            ("long-plain-log", Spec { chains: vec![(0, 0, 6, vec![]), (1, 1, 2, vec![0])], forge_for: vec![0] }),
+        ]
     } else {
-        Spec { chains: vec![(0, 0, 4, vec![2]), (0, 1, 2, vec![]), (1, 0, 3, vec![1]), (1, 1, 2, vec![0])], forge_for: vec![0] }
+        vec![
+            ("forged-copies", Spec { chains: vec![(0, 0, 4, vec![2]), (0, 1, 2, vec![])], forge_for: vec![0] }),
+            ("two-authors-prune-points", Spec { chains: vec![(0, 0, 3, vec![]), (1, 0, 3, vec![1]), (1, 1, 2, vec![0])], forge_for: vec![] }),
+        ]
     };
-    let u = build(&spec);
     rep.rule = format!(
-        "explicit-state BFS to fixpoint from the empty store: in every reachable state every element of a universe of {} operations (honest chains {:?} = (author, log, length, prune-flag positions), plus per honest op of the forged chains: signed by another key, backlink/seq/flag edited under a stale signature, body replaced) is delivered to the real ingest_operation on SqliteStore, once with ingest only and once with prune_entries applied after accepted prune-flagged operations; non-trivial = distinct non-empty reachable state (each is expanded with all {} deliveries)",
-        u.elems.len(), spec.chains, u.elems.len()
+        "explicit-state BFS to fixpoint from the empty store over universes {:?} (chains = (author, log, length, prune-flag positions); per honest op of the forged chains: signed by another key, backlink/seq/flag edited under a stale signature, body replaced, id field edited): in every reachable state every element is delivered to the real ingest_operation on SqliteStore, once with ingest only and once with prune_entries applied after accepted prune-flagged operations; non-trivial = distinct non-empty reachable state (each is expanded with all deliveries)",
+        specs.iter().map(|(n, s)| format!("{n}: {:?} forged {:?}", s.chains, s.forge_for)).collect::<Vec<_>>()
     );
-    for apply_prune in [false, true] {
-        let cfg = Cfg { property: "C03", apply_prune, check_chain: true, check_floor: false };
-        explore(&mut rep, &cfg, &u, 64);
+    for (name, spec) in &specs {
+        let u = build(spec);
+        for apply_prune in [false, true] {
+            let cfg = Cfg { property: "C03", apply_prune, check_chain: true, check_floor: false };
+            let c = explore_collect(&cfg, &u, 64, rep.args.threads);
+            merge(&mut rep, name, c);
+        }
     }
     rep.assume("ingest_operation is a function of (store content, operation, arguments): states are rebuilt by replaying a witness delivery path through the real code");
     rep.assume("authors do not equivocate (no two validly signed operations of one author with the same seq in one log)");
